@@ -16,8 +16,18 @@ from . import common, meshes
 from .common import INT_FILL, enc_ints, enc_pairs, enc_rows
 
 
-def observe(ux, m):
+ORDERS = list(itertools.permutations(["n_edge", "edge_node_connectivity", "face_edge_connectivity", "n_nodes_per_face"]))
+
+
+def observe(ux, m, order=None):
+    """The derived quantities are lazily populated, so the ORDER of first access is part of the
+    input: every grid is observed in a (seeded) random order of first access, on a fresh grid,
+    in one process with all the grids observed before it (a side table left behind by an
+    earlier grid, or a population path that depends on what was asked first, shows up as a wrong
+    table here)."""
     g = meshes.to_grid(m, ux)
+    for name in order or ORDERS[0]:
+        getattr(g, name)
     E = g.edge_node_connectivity.values
     FE = g.face_edge_connectivity.values
     N = g.n_nodes_per_face.values
@@ -39,17 +49,19 @@ def canon(edges, fe):
     return [key[i] for i in order], [[ren.get(x, x) for x in r] for r in fe]
 
 
-def judge(ctx, m, tag):
+def judge(ctx, m, tag, order=None):
     import uxarray as ux
 
     t = m.rows()
     w = m.width
-    inp = dict(mesh=m.describe(), table=t, tag=tag)
+    order = list(ctx.rng.choice(ORDERS)) if order is None else order
+    inp = dict(mesh=m.describe(), table=t, tag=tag, access_order=order)
+    ctx.hit("first-access=" + order[0])
     try:
-        g, o = observe(ux, m)
+        g, o = observe(ux, m, order)
     except Exception as e:  # the real code refuses a well-formed table
         ctx.case((tag, t), sample=inp)
-        ctx.fail(f"C02/raises/{type(e).__name__}", f"edge construction raises {type(e).__name__}: {e}", inp)
+        ctx.fail(f"C02/raises/{type(e).__name__}/first-access={order[0]}", f"edge construction raises {type(e).__name__}: {e}", inp)
         return
     d = ctx.driver
     std = d.ask("C02.std", m.n_node, w, enc_rows(t))
@@ -131,4 +143,9 @@ def replay(ctx, rp):
     n = max(max(f) for f in faces) + 1
     xyz = np.array([meshes._ll(37.0 * i - 170, 11.0 * (i % 14) - 70) for i in range(n)])
     m = meshes.AMesh(faces, xyz, inp["mesh"].get("closed", False), "replay")
-    judge(ctx, m, "replay")
+    # the generated stream observes many grids in one process: replay after a fully populated
+    # other grid, so that failures which need an earlier grid (leaked side tables) reproduce
+    import uxarray as ux
+
+    observe(ux, meshes.prism(5))
+    judge(ctx, m, "replay", inp.get("access_order"))
